@@ -432,9 +432,14 @@ func cmdCheck(args []string) {
 					curFile = filepath.Join(os.TempDir(), fmt.Sprintf("mc-cur-%d-%d", os.Getpid(), b[0]))
 					env = append(env, "GORACE=halt_on_error=1 exitcode=66", "MC_CUR="+curFile)
 				}
-				cmd := exec.Command(bin, a...)
+				// a worker that does not come back (an endless loop inside one case) is killed two minutes after the
+				// deadline; its items are then reported as not completed
+				kctx, kcancel := context.WithDeadline(context.Background(), deadline.Add(2*time.Minute))
+				cmd := exec.CommandContext(kctx, bin, a...)
 				cmd.Env = env
 				out, err := cmd.Output()
+				killed := kctx.Err() != nil
+				kcancel()
 				if curFile != "" {
 					if ee, ok := err.(*exec.ExitError); ok && ee.ExitCode() == 66 {
 						// ThreadSanitizer reported a data race in this execution
@@ -469,7 +474,9 @@ func cmdCheck(args []string) {
 					results[r.Index] = &rr
 					n++
 				}
-				if err != nil || n != len(b) {
+				if killed {
+					// results decoded so far stand; the rest stay nil = not completed (capped)
+				} else if err != nil || n != len(b) {
 					msg := fmt.Sprintf("worker for items %v failed: %v (%d/%d results)", b, err, n, len(b))
 					if ee, ok := err.(*exec.ExitError); ok {
 						tail := string(ee.Stderr)
@@ -507,6 +514,9 @@ func cmdCheck(args []string) {
 		}
 		if r == nil {
 			capped++
+			if len(cappedWhy) < 5 {
+				cappedWhy = append(cappedWhy, items[i].Name+": not completed before the deadline")
+			}
 			continue
 		}
 		done++
